@@ -226,6 +226,22 @@ def execute(case):
           pass
       return v, verdict
 
+    _unheld_value_for = value_for
+    held = []
+
+    def value_for(ld):   # pylint: disable=function-redefined
+      """Sometimes the value is a container that already sits somewhere else (the library stores a copy of it)."""
+      v, verdict = _unheld_value_for(ld)
+      if type(v) in (list, dict) and ch.pick(3) == 0:
+        try:
+          holder = pg.Dict(x=v)
+        except REJECT:
+          return v, verdict
+        held.append((holder, holder.x, _json(holder)))
+        res.label('held-value')
+        return holder.x, verdict
+      return v, verdict
+
     _orig_value_for = value_for
     sample_err = []
 
@@ -442,6 +458,20 @@ def execute(case):
         and type(v) in (bool, int, float, str) and ap is None):
       return res.violate('valid primitive %s rejected with %r | %s' % (_r(v), exc, what),
                          op=name, rule='rejected-valid-write', **sigx)
+    # a value that stays where it was (the library stores a copy) is not touched by the write, accepted or not
+    for holder, orig, snap in held:
+      now = holder.sym_getattr('x', None)
+      problem = None
+      if now is not orig or orig.sym_parent is not holder:
+        problem = 'it is no longer held by its owner'
+      elif getattr(orig, 'value_spec', None) is not None:
+        problem = 'it now carries the value spec %r of the place it was written to' % (orig.value_spec,)
+      elif _json(holder) != snap:
+        problem = 'its content changed from %s to %s' % (snap, _json(holder))
+      if problem:
+        return res.violate('the written value was a container owned by another tree; after the write (%s) %s | %s' % (
+            'rejected with %r' % exc if exc else 'accepted', problem, what), op=name, rule='source-value-modified',
+                           outcome='rejected' if exc else 'accepted', **sigx)
     if exc is None and name in STRUCT:
       n_struct_ok += 1
     bad = _state_check(root, desc, lenient)
